@@ -1,1 +1,2 @@
 import Iodata.Props.C10
+import Iodata.Props.C08
